@@ -1,7 +1,7 @@
 // specDAG: an independent evaluator of the property text for the root graph, applicable when every node's
 // status is observable and the outcome does not depend on timing: all nodes are lambdas, no failing node,
-// all edges lead forward (acyclic), every node with a predecessor has a control predecessor, no node is both
-// a direct control successor and a branch end of the same source, and no fan-in merge fails.
+// all edges lead forward (acyclic), every node with a predecessor has a control predecessor, and no fan-in
+// merge fails.
 //
 // Rule (in topological = key order): a node without any predecessor is skipped; otherwise it runs iff some
 // control predecessor ran and routed control to it, on the merge of the outputs of the data predecessors that
@@ -45,11 +45,6 @@ func specDAG(c *gg.Case) specResult {
 		for _, t := range n.CSucc {
 			if !fwd(t) {
 				return res
-			}
-			for j := range n.Branches {
-				if hasKey(n.Branches[j].Ends, t) {
-					return res // edge and branch to the same target: order of reports decides
-				}
 			}
 		}
 		for j := range n.Branches {
